@@ -1,6 +1,6 @@
 module github.com/bufbuild/connect-go/verifharness
 
-go 1.18
+go 1.21
 
 require (
 	github.com/bufbuild/connect-go v0.0.0
